@@ -288,35 +288,126 @@ def run(ctx, ck):
 
     # ---------------------------------------------------------------- D3
     ct = m.func('mininec.Geo_Container.compute_tags')
-    cfl = ctx.flow(ct)
-    raises = [r for r in walk_no_nested(ct.node) if isinstance(r, ast.Raise)]
-    gtxt = []
-    for r in raises:
-        p = parent(r)
-        if isinstance(p, ast.If):
-            gtxt.append(norm(p.test))
-    ok = sorted(gtxt) == sorted(['geobj.tag <= 0', 'geobj.tag in tags_seen'])
-    ck.ob('R-TAGS.compute_tags', ct.qual + '|validation', ok, ct.loc(), 'rejects %s' % sorted(gtxt))
-    mx = [s for s in walk_no_nested(ct.node) if isinstance(s, ast.Assign) and norm(s.value) == 'max(tags_seen)']
-    auto = [s for s in walk_no_nested(ct.node) if isinstance(s, ast.If) and norm(s.test) == 'geobj.tag is None']
-    ok = len(mx) == 1 and len(auto) == 1 and [norm(x) for x in auto[0].body] == [
-        '%s += 1' % norm(mx[0].targets[0]), 'geobj.tag = %s' % norm(mx[0].targets[0])]
+    # decided on the symbolic walk of compute_tags (loops entered once, elements bound) and, for the
+    # running automatic tag, on the loop body as a state transformer
+    import re
+    from ..symx import SymExec, loop_transformer
+    from ..poly import poly_roles, cancel, Poly
+    tpaths = SymExec(ctx, ct, bind_loops=True, max_paths=2000).run()
+    E = lambda t_: re.sub(r'self\.geo\[_k\d+\]', 'E', t_)
+    # (a) validation of explicit tags
+    rej = set()
+    for p_ in tpaths:
+        if p_.end != 'raise':
+            continue
+        atoms = [(E(t_), b_) for t_, b_ in p_.conds if isinstance(b_, bool)]
+        if ('E.tag is None', False) not in atoms:
+            rej.add('raise without an explicit tag: %s' % (atoms[-1:],))
+            continue
+        last = atoms[-1]
+        if last == ('E.tag <= 0', True) or last == ('E.tag > 0', False) or last == ('E.tag < 1', True):
+            rej.add('tag <= 0')
+        elif last[1] is True and re.match(r'^E\.tag in \w+(\(\))?$', last[0]):
+            rej.add('tag already seen')
+        else:
+            rej.add('%s is %s' % last)
+    seen_add = any(E(norm(c_)) in ('tags_seen.add(E.tag)',) or re.match(r'^\w+\.add\(E\.tag\)$', E(norm(c_)))
+                   for p_ in tpaths if p_.end != 'raise' for c_, st_ in p_.calls)
+    ok = rej == {'tag <= 0', 'tag already seen'} and seen_add
+    ck.ob('R-TAGS.compute_tags', ct.qual + '|validation', ok, ct.loc(),
+          'rejects %s; accepted explicit tags are remembered' % sorted(rej))
+    # (b) automatic tags: first one is max(explicit)+1 (1 without explicit tags), then +1 per object
+    firsts = set()
+    for p_ in tpaths:
+        if p_.end == 'raise':
+            continue
+        for k_, v_, st_ in p_.stores:
+            if re.match(r'^self\.geo\[_k\d+\]\.tag$', k_):
+                have = [b_ for t_, b_ in p_.conds if isinstance(b_, bool) and re.match(r'^\w+$', t_)]
+                try:
+                    pol = cancel(poly_roles(v_, {}))
+                except ValueError:
+                    pol = None
+                firsts.add((have[-1] if have else None, repr(pol)))
+    want_first = {(True, repr(cancel(poly_roles(ast.parse('max(tags_seen) + 1', mode='eval').body, {})))),
+                  (False, repr(Poly.const(1))), (None, repr(Poly.const(1)))}
+    ok = bool(firsts) and firsts <= want_first and any(h_ is True for h_, _ in firsts)
+    why = 'first automatic tag: %s' % sorted(firsts, key=str)
+    loops2 = [l for l in ct.body() if isinstance(l, ast.For) and any(
+        isinstance(x_, ast.Attribute) and x_.attr == 'tag' and isinstance(x_.ctx, ast.Store) for x_ in ast.walk(l))]
+    if ok and len(loops2) == 1:
+        pre, carried, bpaths, post = loop_transformer(ctx, ct, loops2[0])
+        lv = [n_.id for n_ in ast.walk(loops2[0].target) if isinstance(n_, ast.Name)]
+        steps = set()
+        for bp in bpaths:
+            if bp.end == 'raise':
+                continue
+            assigned = [v_ for k_, v_, st_ in bp.stores if k_.endswith('.tag')]
+            for c_ in carried - set(lv):
+                if c_ not in bp.env:
+                    continue
+                try:
+                    d_ = cancel(poly_roles(bp.env[c_], {}) - Poly.var(c_))
+                    off = cancel(poly_roles(assigned[-1], {}) - poly_roles(bp.env[c_], {})) if assigned else None
+                except ValueError:
+                    d_, off = 'not understood', None
+                steps.add((bool(assigned), repr(d_), repr(off)))
+        # when a tag is assigned the counter advances by one and the tag is the counter (after or before the step)
+        ok = bool(steps) and all((a_ and d_ == repr(Poly.const(1)) and off_ in (repr(Poly()), repr(Poly.const(-1))))
+                                 or (not a_ and d_ == repr(Poly())) for a_, d_, off_ in steps) and \
+            any(a_ for a_, d_, off_ in steps)
+        why += '; counter step (assigned?, step, tag - counter): %s' % sorted(steps)
+    elif ok:
+        ok = False
+        why += '; %d loops assign tags' % len(loops2)
     ck.ob('R-TAGS.compute_tags', ct.qual + '|automatic', ok, ct.loc(),
-          'automatic tags continue after max(explicit tags)')
-    ls = [l for l in loops_in(ct.node) if isinstance(l, ast.For) and
-          any(isinstance(s, ast.Assign) and 'self.by_tag[' in norm(s.targets[0]) for s in l.body)]
-    ok = len(ls) == 1
-    if ok:
-        mn, mx_ = loop_reaches_on_all_paths(cfl, ls[0], lambda n: n.kind == 'stmt' and isinstance(n.stmt, ast.Assign)
-                                            and norm(n.stmt.targets[0]) == 'self.by_tag[geobj.tag]'
-                                            and norm(n.stmt.value) == 'geobj')
-        ok = (mn, mx_) == (1, 1) and ('self.geo' in norm(ls[0].iter))
-    ck.ob('R-TAGS.compute_tags', ct.qual + '|by_tag', ok, ct.loc(), 'by_tag[tag] = object for every object')
-    srt = [c for c in walk_no_nested(ct.node) if isinstance(c, ast.Call) and norm(c.func) == 'self.geo.sort']
-    ok = len(srt) == 1 and len(srt[0].keywords) == 1 and norm(srt[0].keywords[0].value) == 'lambda geobj: geobj.tag'
-    if ok:
-        ok = cfl.cfg.must_pass(cfl.cfg.exit.id, {cfl.node_id_of(srt[0])})
-    ck.ob('R-TAGS.compute_tags', ct.qual + '|sorted', ok, ct.loc(), 'objects sorted by tag')
+          'automatic tags continue after max(explicit tags): ' + why)
+    # (c) every object is entered into by_tag under its (possibly just assigned) tag
+    bad = None
+    n_ent = 0
+    for p_ in tpaths:
+        if p_.end == 'raise':
+            continue
+        loops_ = [t_ for k_, t_ in p_.conds if k_ == 'loop' and 'self.geo' in t_]
+        evs = [ev for ev in p_.events if ev[0] == 'store' and ev[1].startswith('self.by_tag[')]
+        ent = [l_ for l_ in loops_ if any(ev[4] and ev[4][-1] == l_ for ev in evs)]
+        if not evs:
+            continue
+        n_ent += 1
+        for ev in evs:
+            elem = E(norm(ev[2]))
+            idx = E(ev[1][len('self.by_tag['):-1])
+            assigned = [E(norm(v_)) for k_, v_, st_ in p_.stores if re.match(r'^self\.geo\[_k\d+\]\.tag$', k_)]
+            if elem != 'E' or not (idx == 'E.tag' or idx in assigned):
+                bad = bad or (idx, elem)
+        if len(evs) != 1:
+            bad = bad or ('%d entries' % len(evs), '')
+    skipped = [p_ for p_ in tpaths if p_.end != 'raise' and not any(ev[0] == 'store' and ev[1].startswith('self.by_tag[')
+                                                                   for ev in p_.events)
+               and any(k_ == 'loop' and 'self.geo' in t_ for k_, t_ in p_.conds)
+               and not any(k_ == 'loop-skipped' and 'self.geo' in t_ for k_, t_ in p_.conds)]
+    ok = bad is None and n_ent > 0 and not skipped
+    ck.ob('R-TAGS.compute_tags', ct.qual + '|by_tag', ok, ct.loc(), 'by_tag[tag] = object for every object' if ok else
+          'by_tag entry %s' % (bad,) if bad else 'an object is not entered into by_tag on some path')
+    # (d) sorted by tag at the end
+    def sort_ok(c_):
+        if not (isinstance(c_.func, ast.Attribute) and c_.func.attr == 'sort' and norm(c_.func.value) == 'self.geo'):
+            return False
+        kw = {k_.arg: k_.value for k_ in c_.keywords}
+        k = kw.get('key')
+        if isinstance(k, ast.Lambda) and len(k.args.args) == 1:
+            return norm(k.body) == '%s.tag' % k.args.args[0].arg
+        return k is not None and norm(k) in ("operator.attrgetter('tag')", "attrgetter('tag')")
+    ok = True
+    n_ok = 0
+    for p_ in tpaths:
+        if p_.end == 'raise':
+            continue
+        srt = [i for i, ev in enumerate(p_.events) if ev[0] == 'call' and sort_ok(ev[1])]
+        tagw = [i for i, ev in enumerate(p_.events) if ev[0] == 'store' and ev[1].endswith('.tag')]
+        ok = ok and len(srt) == 1 and all(i < srt[0] for i in tagw) and 'reverse' not in norm(p_.events[srt[0]][1])
+        n_ok += 1
+    ck.ob('R-TAGS.compute_tags', ct.qual + '|sorted', ok and n_ok > 0, ct.loc(), 'objects sorted by tag after all tags are assigned')
     # positions after sorting
     ini = m.func('mininec.Mininec.__init__')
     ifl = ctx.flow(ini)
